@@ -1,7 +1,4 @@
-use std::{
-    io::{BufRead, ErrorKind, Result as IoResult},
-    slice,
-};
+use std::io::{BufRead, ErrorKind, Result as IoResult};
 
 use super::encoding::Encoding;
 
@@ -56,9 +53,20 @@ impl<R: BufRead> Decoder<R> {
         // Reading up to b'\n' will miss the final b'\0' for an UTF-16LE encoded
         // string so we need to read an additional byte.
         if self.encoding == Encoding::Utf16LE && self.read_buf.ends_with(b"\n") {
-            let mut byte = 0;
-            self.inner.read_exact(slice::from_mut(&mut byte))?;
-            self.read_buf.push(byte);
+            loop {
+                match self.inner.fill_buf() {
+                    Ok(&[byte, ..]) => {
+                        self.read_buf.push(byte);
+                        self.inner.consume(1);
+
+                        break;
+                    }
+                    // The stream ended right after the b'\n'
+                    Ok(_) => break,
+                    Err(ref err) if err.kind() == ErrorKind::Interrupted => {}
+                    Err(err) => return Err(err),
+                }
+            }
         }
 
         Ok(Some(self.curr_line()))
